@@ -484,6 +484,82 @@ theorem refused_challenge_is_final (C : Crypto) (md5 : Bytes → Bytes) (cr : Cr
   rw [mgrRun_not_pending C md5 cr _ later h1.1]
   exact h1.2
 
+/-! ## FAST tokens over several connections (XEP-0484) -/
+
+/-- **A stored token is always filed under the mechanism the server issued it for.**  One client object
+(`QXmppConfiguration` + `FastTokenManager`), any history of connections: credential replacement by the application,
+logins with any server offer (FAST feature present or not, any -NONE mechanisms, FAST enabled or not), `<success/>`
+with or without a new `<token/>` (first issue on request, rotation after a token login), failed logins, in any order
+and number — provided only that the application does not replace the credentials while a login is pending
+(`wellTimed`).  "Issued for" is the server's view: the mechanism named in this login's `<request-token/>`, else
+(rotation) the HT mechanism the login was made with. -/
+theorem fast_token_filed_under_issuing_mechanism (fam : Nat → Crypto) (user pass : Bytes) (ops : List FastOp)
+    (hw : wellTimed fam { user := user, pass := pass } ops = true) (m i : Nat) (secret : Bytes) :
+    (fastRun fam { user := user, pass := pass } ops).token = some (m, secret) →
+    (fastRun fam { user := user, pass := pass } ops).issued = some i → m = i :=
+  (fastInv_run fam _ ops (fastInv_init user pass) hw).1 m secret i
+
+/-- **The mechanism announced with a stored token is the one the server issued that token for, and the initial
+response is `user NUL HMAC_{hash of that mechanism}(token, "Initiator")`** (XEP-0484 §3.1, no channel binding) —
+after any such history, for any next login. -/
+theorem fast_login_uses_issuing_mechanism_and_hash (fam : Nat → Crypto) (user pass : Bytes) (ops : List FastOp)
+    (hw : wellTimed fam { user := user, pass := pass } ops = true)
+    (fastEnabled : Bool) (offer : Option (List Nat)) (m : Nat) (initial : Bytes) (req : Option Nat)
+    (h : (fastStep fam (fastRun fam { user := user, pass := pass } ops) (.login fastEnabled offer)).2 = .sent (some m) initial req) :
+    ∃ secret, (fastRun fam { user := user, pass := pass } ops).token = some (m, secret)
+      ∧ initial = Ref.htMessage (fam m) (fastRun fam { user := user, pass := pass } ops).user secret
+      ∧ ∀ i, (fastRun fam { user := user, pass := pass } ops).issued = some i → i = m := by
+  have hinv := fastInv_run fam _ ops (fastInv_init user pass) hw
+  revert h hinv
+  generalize fastRun fam { user := user, pass := pass } ops = st
+  intro h hinv
+  simp only [fastStep] at h
+  cases htok : st.token with
+  | none =>
+    rw [htok] at h
+    simp only [] at h
+    split at h <;> simp at h
+  | some tok =>
+    rw [htok] at h
+    simp only [] at h
+    split at h
+    · simp [htStep] at h
+      obtain ⟨h1, h2, _⟩ := h
+      refine ⟨tok.2, by rw [← h1], ?_, ?_⟩
+      · rw [← h2, ← h1]; simp [Ref.htMessage, sInitiator]
+      · intro i hi
+        have := hinv.1 tok.1 tok.2 i htok hi
+        omega
+    · split at h <;> simp at h
+
+/-- **A token is only requested when none is stored**, and then for the strongest -NONE mechanism on offer. -/
+theorem fast_request_only_without_token (fam : Nat → Crypto) (st : FastSt) (fastEnabled : Bool) (offer : Option (List Nat))
+    (mech : Option Nat) (initial : Bytes) (r : Nat)
+    (h : (fastStep fam st (.login fastEnabled offer)).2 = .sent mech initial (some r)) :
+    st.token = none ∧ fastEnabled = true ∧ ∃ l, offer = some l ∧ maxOpt l = some r := by
+  simp only [fastStep] at h
+  cases htok : st.token with
+  | some tok =>
+    rw [htok] at h
+    simp only [Option.isNone_some, Bool.and_false, Bool.false_eq_true, if_false] at h
+    split at h
+    · split at h <;> simp at h
+    · split at h <;> simp at h
+  | none =>
+    rw [htok] at h
+    simp only [Option.isNone_none, Bool.and_true] at h
+    split at h
+    · simp only [FastOut.sent.injEq] at h
+      obtain ⟨_, _, h3⟩ := h
+      split at h3
+      · rename_i hc
+        simp only [Bool.and_eq_true] at hc
+        cases offer with
+        | none => simp at hc
+        | some l => exact ⟨rfl, hc.2, l, rfl, by simpa using h3⟩
+      · simp at h3
+    · simp at h
+
 /-! ## Non-vacuity: the hypotheses above are met by concrete, reachable situations
 
 `toyCrypto` has HMAC output length 2; `toyCred` is user `u`, password `p`, client nonce `x`.
@@ -539,6 +615,16 @@ example : Ref.plainServerVerify [117] [112] (Ref.plainMessage [117] [112]) = tru
 example : Ref.plainServerVerify [117] [113] (Ref.plainMessage [117] [112]) = false := by decide
 example : htStep toyCrypto { toyCred with htMech := 3, token := some (3, [116]) } false []
     = (true, some [117, 0, 1, 2]) := by decide
+
+/-- FAST, the three-login history of seeded change C06_c1 (request for mechanism 0, stored token for mechanism 3 put in
+by the application, rotation, next login): well-timed, and the third login announces mechanism 3 with the rotated token -/
+example : wellTimed toyFam { user := [117], pass := [112] }
+      [.setCreds true none, .login true (some [0]), .success (some [65]), .setCreds true (some (3, [66])),
+       .login true (some [0, 1, 2, 3]), .success (some [67])] = true
+    ∧ (fastStep toyFam (fastRun toyFam { user := [117], pass := [112] }
+      [.setCreds true none, .login true (some [0]), .success (some [65]), .setCreds true (some (3, [66])),
+       .login true (some [0, 1, 2, 3]), .success (some [67])]) (.login true (some [0, 1, 2, 3]))).2
+      = .sent (some 3) [117, 0, 1, 2] none := by decide
 
 /-- the manager: the honest server script (two challenges, then `<success/>`) ends in a verified
 success; the bare `<success/>` is refused by both managers -/
